@@ -98,6 +98,22 @@ def run_one(s):
             tr["exc3"] = r[1] if len(r) > 1 else "hang"
         else:
             tr["bits3"], tr["shape3_ok"] = bits_of(r[1], len(coords))
+    # the same expression 256 times larger (lengths, positions, parameter values), queried at the scaled points: membership does
+    # not depend on the size of the shape
+    tr["bits4"], tr["shape4_ok"], tr["exc4"] = [], True, ""
+    if tid % 2 == 1:
+        KS = 256.0
+
+        def scaled_query():
+            d4 = U.build_scaled(e, KS)
+            p4 = Points(pts.as_tensor * KS, pts.space)
+            q4 = Points(par.as_tensor * KS, par.space) if names else par
+            return d4._contains(p4, q4)
+        r = watched(scaled_query)
+        if r[0] != "ok":
+            tr["exc4"] = r[1] if len(r) > 1 else "hang"
+        else:
+            tr["bits4"], tr["shape4_ok"] = bits_of(r[1], len(coords))
     # boundary object
     tr["bd"] = "none"
     if s.get("boundary"):
